@@ -223,6 +223,10 @@ type Layout struct {
 	FillerEvery  int    // leave every n-th page number unused (it goes to the freelist); 0 = none
 	ShuffleCells bool   // cell content in random physical order
 	Gaps         bool   // leave free blocks between cells
+	// AutoVacuum (1 = full, 2 = incremental): an auto-vacuum file - pointer
+	// map pages at their fixed places (never handed out for content), every
+	// other page described there, largest root page in the header.
+	AutoVacuum int `json:",omitempty"`
 }
 
 // Ref names a field of the image: where structure-aware corruption can aim.
@@ -264,6 +268,9 @@ func (b *Builder) Alloc() int {
 		for i := 0; i < n; i++ {
 			p := b.nextPg
 			b.nextPg++
+			if b.Layout.AutoVacuum > 0 && b.isPtrmap(p) {
+				continue
+			}
 			if b.Layout.FillerEvery > 0 && p%b.Layout.FillerEvery == 0 {
 				b.free = append(b.free, p)
 				continue
@@ -280,6 +287,104 @@ func (b *Builder) Alloc() int {
 	b.queue = b.queue[1:]
 	b.pages[p] = make([]byte, b.U)
 	return p
+}
+
+// isPtrmap: pointer map pages are page 2 and every (U/5 + 1)-th page after it
+// (the images built here stay far below the pending-byte page).
+func (b *Builder) isPtrmap(p int) bool {
+	return p >= 2 && (p-2)%(b.U/5+1) == 0
+}
+
+// writePtrmap fills in the pointer map pages by walking the finished trees
+// from their roots: type 1 root, 2 free, 3 first overflow page (parent: the
+// page with the cell), 4 later overflow page (parent: the one before), 5
+// b-tree page that is not a root (parent: the interior page above).
+func (b *Builder) writePtrmap(roots []int, free []int, maxPg int) {
+	per := b.U/5 + 1
+	for p := 2; p <= maxPg; p += per {
+		b.pages[p] = make([]byte, b.U)
+	}
+	set := func(p int, typ byte, parent int) {
+		if p < 2 || p > maxPg || b.isPtrmap(p) {
+			return
+		}
+		m := (p-2)/per*per + 2
+		off := 5 * (p - m - 1)
+		buf := b.pages[m]
+		buf[off] = typ
+		binary.BigEndian.PutUint32(buf[off+1:], uint32(parent))
+	}
+	chain := func(first, parent int) {
+		typ := byte(3)
+		for pg, n := first, 0; pg != 0 && n <= maxPg; n++ {
+			set(pg, typ, parent)
+			buf := b.pages[pg]
+			if buf == nil {
+				return
+			}
+			parent, typ = pg, 4
+			pg = int(binary.BigEndian.Uint32(buf))
+		}
+	}
+	seen := map[int]bool{}
+	var walk func(pg int)
+	walk = func(pg int) {
+		buf := b.pages[pg]
+		if buf == nil || seen[pg] {
+			return
+		}
+		seen[pg] = true
+		h := 0
+		if pg == 1 {
+			h = 100
+		}
+		typ := buf[h]
+		interior := typ == 2 || typ == 5
+		n := int(binary.BigEndian.Uint16(buf[h+3:]))
+		ptrs := h + 8
+		if interior {
+			ptrs += 4
+		}
+		for i := 0; i < n; i++ {
+			c := int(binary.BigEndian.Uint16(buf[ptrs+2*i:]))
+			if interior {
+				child := int(binary.BigEndian.Uint32(buf[c:]))
+				set(child, 5, pg)
+				walk(child)
+				c += 4
+			}
+			if typ == 5 {
+				continue
+			}
+			size, k := readVar(buf[c:])
+			c += k
+			if typ == 13 {
+				_, k = readVar(buf[c:])
+				c += k
+			}
+			l := LocalSize(int(size), b.U, typ != 13)
+			if l < int(size) {
+				chain(int(binary.BigEndian.Uint32(buf[c+l:])), pg)
+			}
+		}
+		if interior {
+			child := int(binary.BigEndian.Uint32(buf[h+8:]))
+			set(child, 5, pg)
+			walk(child)
+		}
+	}
+	for _, r := range roots {
+		set(r, 1, 0)
+		func() {
+			// a hostile sqlite_master may name anything as a root page: what
+			// cannot be read as a b-tree is left undescribed
+			defer func() { recover() }()
+			walk(r)
+		}()
+	}
+	for _, p := range free {
+		set(p, 2, 0)
+	}
 }
 
 // Cell is an encoded cell plus what the checks want to know about it.
@@ -889,6 +994,7 @@ func (b *Builder) FinishRaw(master [][]Field, h Header, masterOpts TreeOpts) []b
 			free = append(free, p)
 		}
 	}
+	allFree := append([]int(nil), free...)
 	// freelist: trunk pages hold up to (U/4 - 2) leaf numbers
 	firstTrunk, nfree := 0, len(free)
 	perTrunk := b.U/4 - 2
@@ -919,6 +1025,22 @@ func (b *Builder) FinishRaw(master [][]Field, h Header, masterOpts TreeOpts) []b
 		}
 		prevTrunk = buf
 	}
+	maxRoot := 0
+	if b.Layout.AutoVacuum > 0 {
+		roots := []int{1}
+		for _, fs := range master {
+			if len(fs) > 3 && fs[3].V.T == 'i' && fs[3].V.I > 1 {
+				roots = append(roots, int(fs[3].V.I))
+				if int(fs[3].V.I) > maxRoot {
+					maxRoot = int(fs[3].V.I)
+				}
+			}
+		}
+		if maxRoot == 0 {
+			maxRoot = 1 // what marks the file as auto-vacuum has to be non-zero
+		}
+		b.writePtrmap(roots, allFree, maxPg)
+	}
 	p1 := b.pages[1]
 	copy(p1, "SQLite format 3\x00")
 	if b.U == 65536 {
@@ -944,10 +1066,13 @@ func (b *Builder) FinishRaw(master [][]Field, h Header, masterOpts TreeOpts) []b
 	binary.BigEndian.PutUint32(p1[40:], h.SchemaCookie)
 	binary.BigEndian.PutUint32(p1[44:], h.SchemaFormat)
 	binary.BigEndian.PutUint32(p1[48:], h.CacheSize)
-	binary.BigEndian.PutUint32(p1[52:], 0)
+	binary.BigEndian.PutUint32(p1[52:], uint32(maxRoot))
 	binary.BigEndian.PutUint32(p1[56:], 1)
 	binary.BigEndian.PutUint32(p1[60:], h.UserVersion)
 	binary.BigEndian.PutUint32(p1[64:], 0)
+	if b.Layout.AutoVacuum == 2 {
+		binary.BigEndian.PutUint32(p1[64:], 1)
+	}
 	binary.BigEndian.PutUint32(p1[68:], h.AppID)
 	binary.BigEndian.PutUint32(p1[92:], h.ChangeCounter)
 	binary.BigEndian.PutUint32(p1[96:], h.VersionNumber)
